@@ -31,7 +31,7 @@ DEAD = "sensor_level > 2000"
 LIVE = "sensor_level >= 0"
 
 
-N_KINDS = 25
+N_KINDS = 26
 
 
 def _cint(rng, d):
@@ -68,7 +68,7 @@ def const_expr(rng):
 
 def site(rng, k):
     """A fold site: returns dict(kind, decl(var form), use_lit, use_var, var, mutate(value-change line), finding keys)."""
-    kinds = ["sleep", "brightness", "blink", "len-str", "len-list", "flash-pattern", "glyph", "rgb", "fade", "ultra-model", "servo-bounds", "range-count", "expr-fold", "const-arith", "param-shadow", "led-rebind", "swap-fold", "aug-fold", "twin-literals", "remove-dup", "reset-same-const", "single-pass-for", "len-arg-twice", "derived-after-change", "tuple-new-from-changed"]
+    kinds = ["sleep", "brightness", "blink", "len-str", "len-list", "flash-pattern", "glyph", "rgb", "fade", "ultra-model", "servo-bounds", "range-count", "expr-fold", "const-arith", "param-shadow", "led-rebind", "swap-fold", "aug-fold", "twin-literals", "remove-dup", "reset-same-const", "single-pass-for", "len-arg-twice", "derived-after-change", "tuple-new-from-changed", "join-same-literal"]
     assert len(kinds) == N_KINDS
     kind = kinds[k % len(kinds)]
     v = f"v{k}"
@@ -141,6 +141,17 @@ def site(rng, k):
         else:
             use = f"g{k} = {a0}\n{chg}\nh{k}, j{k} = g{k}, {d}\nmon.write(h{k})\nmon.write(j{k})\nsleep(h{k} + j{k})"
             lit = f"mon.write({a1})\nmon.write({d})\nsleep({a1 + d})"
+        return dict(kind=kind, var=v, decl=f"{v} = 0", lit=lit, use=use, expr=use, mut=None, mut_lit=None, whole=True)
+    if kind == "join-same-literal":
+        # a string first bound inside an if/else, every arm assigning the SAME literal, one arm extending it in a nested block taken at
+        # run time: whatever is derived from it after the statement sees the extended value
+        a, b = rng.choice([("abc", "def"), ("", "xy"), ("q", "q")])
+        nest = rng.choice([f"if {LIVE}:", "for qq in range(1):", "try:"])
+        tail = ["    except:", "        pass"] if nest == "try:" else []
+        use = "\n".join([f"if {LIVE}:", f"    js{k} = \"{a}\"", "    " + nest, f"        js{k} = js{k} + \"{b}\""] + tail + ["else:", f"    js{k} = \"{a}\"",
+                          f"mon.write(len(js{k}))", f"jt{k} = js{k} + \"!\"", f"mon.write(len(jt{k}))", f"sleep(len(js{k}) * 10 + 1)"])
+        n = len(a + b)
+        lit = f"mon.write({n})\nmon.write({n + 1})\nsleep({n * 10 + 1})"
         return dict(kind=kind, var=v, decl=f"{v} = 0", lit=lit, use=use, expr=use, mut=None, mut_lit=None, whole=True)
     if kind == "reset-same-const":
         # a name set back to the constant it was initialised with, after a block (taken at run time) changed it: all stores count
@@ -411,7 +422,7 @@ def main() -> int:
         if not rep.counters.get("compared:" + k[5:]):
             rep.inconclusive_because(f"fold site {k[5:]}: no pair reached the four-way comparison (all rejected or discarded)")
     witness.check_witnesses(rep)
-    rep.rule = ("pairs (P, P') over 25 fold sites (a global derived from a name changed earlier - alone or in a tuple assignment -, reset to the initial constant, single-pass loop with break, the same len() argument twice around a mutation, sleep, brightness, blink, len of str, len of list, flash pattern, glyph bitmap, RGB colour, fade duration/steps, "
+    rep.rule = ("pairs (P, P') over 26 fold sites (a string bound to the same literal in every arm of an if/else and extended in a nested block, a global derived from a name changed earlier - alone or in a tuple assignment -, reset to the initial constant, single-pass loop with break, the same len() argument twice around a mutation, sleep, brightness, blink, len of str, len of list, flash pattern, glyph bitmap, RGB colour, fade duration/steps, "
                 "ultrasonic model name, servo bounds, range count, arithmetic) x transformations {literal -> variable, literal -> name-free expression, mutation "
                 "in a branch never taken at run time, mutation in a loop run 0 times, mutation in a branch always taken (vs the program written with the new "
                 "literal)}, in setup() or the main loop; branch conditions read a scripted analog input so the folder cannot decide them. All four executions must "
